@@ -160,7 +160,7 @@ func TestZlibDifferential(t *testing.T) {
 		t.Fatalf("VERIF-INFRA: zlib child: %v", err)
 	}
 
-	hx.Check(t, 1.5, func(t *rapid.T) {
+	hx.Check(t, 3.6, func(t *rapid.T) {
 		class, payload := genPayload(t, rapid.IntRange(0, 3).Draw(t, "allowbig") == 0)
 		hx.Eval()
 		hx.Class("zlib-differential/payload=" + class)
